@@ -12,6 +12,7 @@ def run(m):
         cmd += ['--edit', e[0], e[1], e[2]]
     cmd += ['--check'] + m['checks']
     if m.get('benign'): cmd.append('--expect-silent')
+    if m.get('tier'): cmd += ['--tier', m['tier']]
     if m['name'].startswith('revert-'): cmd += ['--save', '/verif/regress']
     r = subprocess.run(cmd, stdout=subprocess.PIPE, stderr=subprocess.STDOUT, text=True)
     return m, r.returncode, r.stdout
